@@ -28,7 +28,9 @@ class Impl:
             self.anyofs += 1
             return _o(evs)
         self.env.any_of = any_of
-        self.fl = m.Fleet(self.env, "F", capacity=case["cap"], delay=case["fdelay"], transit_delay=case["transit"])
+        # the same whole-number delays, handed over as int or as float (2 and 2.0 are the same delay)
+        num = float if case.get("as_float") else int
+        self.fl = m.Fleet(self.env, "F", capacity=case["cap"], delay=num(case["fdelay"]), transit_delay=num(case["transit"]))
         self.fl.src_node = object()
         self.fl.dest_node = object()
         self.st = self.fl.inbuiltstore
@@ -270,7 +272,8 @@ def oracle(case, micro, rows):
 
 
 def gen_case(rng, n_ops):
-    case = dict(model="tfleet", cap=rng.choice([1, 2, 2, 3, 4]), fdelay=rng.choice([1, 2, 3, 5]), transit=rng.choice([0, 0, 1, 2, 3]))
+    case = dict(model="tfleet", cap=rng.choice([1, 2, 2, 3, 4]), fdelay=rng.choice([1, 2, 3, 5]), transit=rng.choice([0, 0, 1, 2, 3]),
+                as_float=rng.random() < 0.4)
     im = Impl(case)
     ops, item = [], [0]
 
